@@ -35,7 +35,7 @@ def rows_of(res):
                 r = json.loads(json.loads(line))
             except Exception:
                 raise vlib.Broken("unparsable row exported by TLC: " + line[:200])
-            k = json.dumps([r["top"], r["far"], r["nobatch"], r["entries"]], sort_keys=True)
+            k = json.dumps([r["top"], r["far"], r["nobatch"], r.get("validator"), r["entries"]], sort_keys=True)
             if k in seen:
                 continue
             seen.add(k)
@@ -46,7 +46,7 @@ def rows_of(res):
 
 
 def run(ctx):
-    binary = ctx.build_engine("jsonrpc")
+    binary = ctx.build_engine("jsonrpc", stubs=True)   # links rpc/v10 (the production validator, real parameter types)
     if ctx.replay:
         with open(ctx.replay) as f:
             rp = json.load(f)
@@ -73,6 +73,11 @@ def run(ctx):
     rows += rows_of(t2)
     t3 = ctx.tlc_check(FAMILY, "JsonRpcMBT.tla", "JsonRpc_nobatch.cfg", timeout=600, label="as-is: batches disabled (exported)")
     rows += rows_of(t3)
+    # parameter type classes x value classes x {validator, no validator} (typed methods; rows exported)
+    for cfg, lab in (("JsonRpc_typed.cfg", "with the production validator"), ("JsonRpc_typed_noval.cfg", "without a validator")):
+        tt = ctx.tlc_check(FAMILY, "JsonRpcMBT.tla", cfg, timeout=600,
+                           label="as-is: typed parameters, %s (exported)" % lab)
+        rows += rows_of(tt)
     r = ctx.tlc_check(FAMILY, "MCJsonRpc.tla", "JsonRpc_batch_quick.cfg", timeout=1500, coverage=thorough,
                       label="as-is: batches <= 3, pool 2")
     if thorough:
@@ -81,7 +86,9 @@ def run(ctx):
         ctx.tlc_check(FAMILY, "MCJsonRpc.tla", "JsonRpc_batch_thorough3.cfg", timeout=3000, label="as-is: batches <= 4, pool 3")
     # against the PURE property TLC must exhibit the known deviation (and, thorough, the two repaired
     # ones on the pre-fix model)
-    pure = [("JsonRpc_h8b.cfg", "PureStdCodes", "as-is vs pure property")]
+    pure = [("JsonRpc_h8b.cfg", "PureStdCodes", "as-is vs pure property"),
+            # the mechanism "a nil struct pointer is not handed to the validator" switched off: null for *T is refused
+            ("JsonRpc_typed_nilptr.cfg", "PInvocations", "NilPointerSkipsValidation = FALSE")]
     if thorough:
         pure += [("JsonRpc_h8.cfg", "PureNotifSilent", "pre-fix model vs pure property"),
                  ("JsonRpc_h8c.cfg", "PureBatchIsProcessed", "pre-fix model vs pure property")]
@@ -124,7 +131,10 @@ def run(ctx):
             raise vlib.Broken("engine panicked:\n" + res["_stdout"][-3000:])
         if st.get("exchanges", 0) < len(rows) or not st.get("exchanges_invoking_a_handler") \
                 or not st.get("large_chunked_exchanges_invoking_a_handler") or not st.get("exchanges_delivered_in_chunks") \
-                or not st.get("concurrent_invocations_checked") or not st.get("huge_batches_conforming"):
+                or not st.get("concurrent_invocations_checked") or not st.get("huge_batches_conforming") \
+                or not st.get("typed_null_for_struct_pointer_invoking_a_handler") or not st.get("typed_null_element_invoking_a_handler") \
+                or not st.get("typed_tag_violation_refused_by_validator") or not st.get("typed_tag_violation_accepted_without_validator") \
+                or not st.get("typed_null_refused") or not st.get("mutants_of_typed_methods_classified"):
             raise vlib.Broken("engine replayed too little: %s" % st)
     ctx.coverage["rows_exported_exhaustively"] = len(rows)
     ctx.coverage["simulated_batches"] = len(batches)
